@@ -23,7 +23,7 @@ EXPLANATION = (
     "plugin manager and the tokenizer re-create their per-document containers per file/document and a fresh scan "
     "context is built per file; R13d ReturnCodeHelper.reset() and the failure counters are reset on entry of every "
     "main, and every API operation runs on a newly constructed application object. "
-    "R13g (=R14n) the dispatch lists are never changed while files are processed. Not decided: value-level leaks through objects shared by reference that are not fields of these classes."
+    "R13g (=R14n) the dispatch lists are never changed while files are processed. R13h no method of a rule or of a rule helper is memoised across files. Not decided: value-level leaks through objects shared by reference that are not fields of these classes."
 )
 ASSUMPTIONS = [
     "the named exceptions in sa/triage.py were confirmed by reading the code: each field is emptied when its construct "
